@@ -558,6 +558,7 @@ func corr(args []string) {
 //
 //	blank-only mandatory field: BatchHeader.CompanyName = " " (and Addenda02.TerminalCity = " "): the file
 //	  validates, the Writer writes it, the default Reader rejects the text          -> C01 failure (known finding)
+//	FileHeader.FileCreationDate of six characters that are no calendar date: same  -> C01 failure (known finding)
 //	unclosed batch: a batch control line removed from a written file: Read (default) succeeds       -> sample
 //	file arithmetic: the entry/addenda count of the file control changed: Read succeeds, Validate fails -> sample
 func witness(args []string) {
@@ -576,7 +577,7 @@ func witness(args []string) {
 		}
 	}
 	jq := func(s string) string { return strconv.Quote(s) }
-	blank := func(sec, what string, edit func(f *ach.File) bool) {
+	blank := func(sec, what, key string, edit func(f *ach.File) bool) {
 		for i := 0; i < *n; i++ {
 			f := gen.FileOfSEC(r, sec, gen.Opts{MinBatches: 1, MaxBatches: 2, Addenda: true})
 			if !edit(f) {
@@ -597,19 +598,20 @@ func witness(args []string) {
 			obs := observe(text)
 			dist[what+":"+strings.SplitN(obs, " ", 2)[0]]++
 			if strings.HasPrefix(obs, "ERR") {
-				w.Printf("{\"kind\":\"fail\",\"key\":\"roundtrip:valid:blank-only-mandatory-field:read-error\",\"what\":%s,\"case\":{\"mode\":\"text\",\"field\":%s,\"text\":%s}}\n",
-					jq("a file that validates (a mandatory field holds a single blank) is written by the Writer and rejected by the default Reader: "+obs), jq(what), jq(hx.Enc(text)))
+				w.Printf("{\"kind\":\"fail\",\"key\":%s,\"what\":%s,\"case\":{\"mode\":\"text\",\"field\":%s,\"text\":%s}}\n", jq(key),
+					jq("a file that validates is written by the Writer and rejected by the default Reader ("+what+"): "+obs), jq(what), jq(hx.Enc(text)))
 			}
 		}
 	}
-	blank(ach.PPD, "BatchHeader.CompanyName", func(f *ach.File) bool {
+	const blankKey = "roundtrip:valid:blank-only-mandatory-field:read-error"
+	blank(ach.PPD, "BatchHeader.CompanyName", blankKey, func(f *ach.File) bool {
 		if len(f.Batches) == 0 {
 			return false
 		}
 		f.Batches[0].GetHeader().CompanyName = " "
 		return true
 	})
-	blank(ach.POS, "Addenda02.TerminalCity", func(f *ach.File) bool {
+	blank(ach.POS, "Addenda02.TerminalCity", blankKey, func(f *ach.File) bool {
 		for _, b := range f.Batches {
 			for _, e := range b.GetEntries() {
 				if e.Addenda02 != nil {
@@ -619,6 +621,11 @@ func witness(args []string) {
 			}
 		}
 		return false
+	})
+	// six characters that are no calendar date: FileHeader.Validate only wants the date non-empty, Parse blanks it
+	blank(ach.CCD, "FileHeader.FileCreationDate", "roundtrip:valid:file-creation-date-not-calendar:read-error", func(f *ach.File) bool {
+		f.Header.FileCreationDate = rng.Pick(r, []string{"250230", "ABCDEF", "991301", "240431"})
+		return true
 	})
 	for i := 0; i < *n; i++ {
 		f := gen.File(r, gen.Opts{MinBatches: 2, MaxBatches: 3, ForwardOnly: true})
